@@ -46,7 +46,7 @@ func newVictim(seed int64, cfg hostCfg, mut func(cf *memberlist.Config)) (*victi
 		}
 	}
 	rig, err := NewRig(RigOpts{Seed: seed, Label: cfg.Label, Key: key, Compress: cfg.Compress, PVer: pver, Spec: NodeSpec{Name: "V", IP: "10.9.9.9", WithPing: true, Mutate: func(cf *memberlist.Config) {
-		cf.ProbeInterval = time.Hour
+		cf.ProbeInterval = noProbe
 		cf.PushPullInterval = 0
 		cf.GossipInterval = 0
 		cf.GossipVerifyIncoming = cfg.Verify
